@@ -78,9 +78,16 @@ def gen_case(rng):
     # the same load through TelstateDataSource (chunk_info alignment happens inside, with and without the
     # flag-upgrade step), and a second pair of loads from a view-returning in-memory store with whole arrays absent
     via_source = rng.choice([None, True, False, False])
+    src_opts = None
+    if via_source is not None:
+        grid = [list(g) for g in itertools.product(*[range(len(c)) for c in chunks['flags']])]
+        src_opts = dict(no_scale_key=rng.random() < 0.4, via_rdb=rng.random() < 0.35,
+                        l1=(dict(seed=rng.randrange(2 ** 31), legacy=rng.random() < 0.5,
+                                 missing=[g for g in grid if rng.random() < 0.3])
+                            if (via_source and rng.random() < 0.5) else None))
     dict_absent = sorted(rng.sample(ARRAYS, rng.randint(1, 2))) if rng.random() < 0.3 else None
     return dict(kind='vfw', T=T, F=F, B=B, dumps=dumps, chunks=chunks, missing=missing, pre=pre,
-                via_source=via_source, dict_absent=dict_absent, seed=rng.randrange(2 ** 31))
+                via_source=via_source, src_opts=src_opts, dict_absent=dict_absent, seed=rng.randrange(2 ** 31))
 
 
 def stored_arrays(case):
@@ -127,6 +134,10 @@ def run_impl(case):
                     sl = tuple(slice(int(starts[d][i]), int(starts[d][i + 1])) for d, i in enumerate(g))
                     cname, _ = store.chunk_metadata(store.join(prefix, a), sl)
                     os.remove(os.path.join(tmp, cname + '.npy'))
+            for a in ARRAYS:
+                adir = os.path.join(tmp, store.join(prefix, a))
+                if os.path.isdir(adir) and not os.listdir(adir):
+                    os.rmdir(adir)        # every chunk of the array is gone: so is its directory
             orig_chunk_info = {a: dict(v) for a, v in chunk_info.items()}
             chunk_info = _align_chunk_info(chunk_info)
             res['aligned'] = {a: [list(c) for c in chunk_info[a]['chunks']] for a in ARRAYS}
@@ -144,7 +155,7 @@ def run_impl(case):
             if case['seed'] % 5 < 2:
                 res['pair'] = load_pair(case, store, chunk_info, stored, vfw, kw)
             if case.get('via_source') is not None:
-                res['src'] = load_via_source(case, store, orig_chunk_info, prefix)
+                res['src'] = load_via_source(case, store, orig_chunk_info, prefix, tmp)
             if case.get('dict_absent') and len(set(case['dumps'].values())) == 1:
                 # (phantom trailing chunks lie outside a DictChunkStore array: a zero-length view, which that store
                 # reports as BadChunk - the dict store has no notion of a missing chunk inside a present array)
@@ -197,11 +208,21 @@ def load_pair(case, store, chunk_info, stored, vfw, kw):
     return out
 
 
-def load_via_source(case, store, chunk_info, prefix):
-    """the public path: telstate with the (unaligned) chunk_info -> TelstateDataSource -> source.data"""
+def l1_flags_array(case):
+    rs = np.random.RandomState(case['src_opts']['l1']['seed'])
+    T, F, B = case['T'], case['F'], case['B']
+    fl = rs.randint(0, 256, (T, F, B)).astype(np.uint8) & np.uint8(0xFF ^ DATA_LOST)
+    return fl[:case['dumps']['flags']]
+
+
+def load_via_source(case, store, chunk_info, prefix, tmp):
+    """the public path: telstate with the (unaligned) chunk_info -> TelstateDataSource -> source.data; optionally
+    an attached flags stream (current or older chunk_info layout), no need_weights_power_scale key, and opening
+    through the RDB file (chunk store inferred from its location)"""
     import katsdptelstate
-    from katdal.datasources import TelstateDataSource, view_l0_capture_stream
+    from katdal.datasources import TelstateDataSource, open_data_source, view_l0_capture_stream
     out = dict(err=None)
+    opts = case.get('src_opts') or {}
     try:
         telstate = katsdptelstate.TelescopeState()
         cbid, stream = 'cb', 'sdp_l0'
@@ -216,15 +237,52 @@ def load_via_source(case, store, chunk_info, prefix):
         s_view['n_chans'] = case['F']
         s_view['n_bls'] = case['B']
         s_view['bls_ordering'] = np.array([('m000h', 'm000h')] * case['B'])
-        s_view['need_weights_power_scale'] = False
+        if not opts.get('no_scale_key'):
+            s_view['need_weights_power_scale'] = False
         s_view['stream_type'] = 'sdp.vis'
-        telstate['sdp_archived_streams'] = [stream]
-        view, cbid_out, sn = view_l0_capture_stream(telstate, cbid, stream)
-        kw = dict(chunk_store=store, upgrade_flags=bool(case['via_source']))
+        archived = [stream]
+        if opts.get('l1'):
+            l1 = opts['l1']
+            fstream, fprefix = 'sdp_l1_flags', 'cb-sdp-l1-flags'
+            arr = l1_flags_array(case)
+            ch = tuple(tuple(c) for c in case['chunks']['flags'])
+            darr = da.from_array(arr, chunks=ch)
+            fname = store.join(fprefix, 'flags')
+            store.create_array(fname)
+            store.put_dask_array(fname, darr).compute()
+            starts = [np.cumsum([0] + list(c)) for c in case['chunks']['flags']]
+            for g in l1['missing']:
+                sl = tuple(slice(int(starts[d][i]), int(starts[d][i + 1])) for d, i in enumerate(g))
+                cname, _ = store.chunk_metadata(fname, sl)
+                os.remove(os.path.join(tmp, cname + '.npy'))
+            info = {'chunks': darr.chunks, 'dtype': np.lib.format.dtype_to_descr(darr.dtype), 'shape': darr.shape}
+            fcs = telstate.view(telstate.join(cbid, fstream))
+            if l1['legacy']:
+                fcs['chunk_name'] = fprefix          # older layout: no 'prefix' item in chunk_info
+            else:
+                info['prefix'] = fprefix
+            fcs['chunk_info'] = {'flags': info}
+            fv = telstate.view(fstream)
+            fv['stream_type'] = 'sdp.flags'
+            fv['src_streams'] = [stream]
+            archived.append(fstream)
+        telstate['sdp_archived_streams'] = archived
+        kw = dict(upgrade_flags=bool(case['via_source']))
         if case['pre'] is not None:
             t0, t1, f0, f1 = case['pre']
             kw['preselect'] = dict(dumps=slice(t0, t1), channels=slice(f0, f1))
-        src = TelstateDataSource(view, cbid_out, sn, **kw)
+        if opts.get('via_rdb'):
+            from katsdptelstate.rdb_writer import RDBWriter
+            telstate['capture_block_id'] = cbid
+            telstate['stream_name'] = stream
+            os.makedirs(os.path.join(tmp, cbid), exist_ok=True)
+            rdb = os.path.join(tmp, cbid, f'{cbid}_{stream}.rdb')
+            with RDBWriter(rdb) as w:
+                w.save(telstate)
+            src = open_data_source(rdb, **kw)        # chunk_store='auto': the NPY store next to the RDB file
+        else:
+            view, cbid_out, sn = view_l0_capture_stream(telstate, cbid, stream)
+            src = TelstateDataSource(view, cbid_out, sn, chunk_store=store, **kw)
         out['n_ts'] = len(src.timestamps)
         out['vis'] = src.data.vis.compute()
         out['flags'] = src.data.flags.compute()
@@ -288,10 +346,13 @@ def flag_table():
     return _FLAG_TABLE[0]
 
 
-def expected(case, replies_by):
-    """element-wise specification S from per-axis chunkOf maps"""
+def expected(case, replies_by, flags_stored=None):
+    """element-wise specification S from per-axis chunkOf maps (`flags_stored`: the flags come from an attached
+    flags stream with the same chunking; case['missing']['flags'] then names ITS missing chunks)"""
     T, F, B = case['T'], case['F'], case['B']
     stored = stored_arrays(case)
+    if flags_stored is not None:
+        stored['flags'] = flags_stored
     miss = {}
     for a in ARRAYS:
         cm = replies_by[a]          # list per axis of chunk index per position
@@ -397,7 +458,17 @@ def evaluate(ctx, cases):
                 v = (f"TelstateDataSource(upgrade_flags={bool(c['via_source'])}) raised {sr['err']} although missing "
                      f"chunks / dumps must load as zeros and data_lost")
             else:
-                vis, flags, weights = expected(c, spec_maps)
+                l1 = (c.get('src_opts') or {}).get('l1')
+                if l1:
+                    ctx.tag('via-source-l1-flags' + ('-legacy-layout' if l1['legacy'] else ''))
+                    vis, flags, weights = expected(dict(c, missing=dict(c['missing'], flags=l1['missing'])), spec_maps,
+                                                   flags_stored=l1_flags_array(c))
+                else:
+                    vis, flags, weights = expected(c, spec_maps)
+                if (c.get('src_opts') or {}).get('via_rdb'):
+                    ctx.tag('via-source-rdb-file')
+                if (c.get('src_opts') or {}).get('no_scale_key'):
+                    ctx.tag('via-source-no-power-scale-key')
                 for nm, got, exp in (('vis', sr['vis'], vis), ('flags', sr['flags'], flags),
                                      ('weights', sr['weights'], weights)):
                     if got.shape != exp.shape or not np.array_equal(got, exp):
